@@ -13,6 +13,8 @@ import (
 func runC26(c *Ctx) {
 	p, r := c.P, c.R
 	r.MinInst["C26.R1"] = 2
+	r.MinInst["C26.R7"] = 3
+	checkPermsBindsP(c)
 	r.MinInst["C26.R2"] = 6
 	r.MinInst["C26.R3"] = 60
 	// ---- R1: handlePermissions
@@ -778,4 +780,37 @@ func modeConstants(v ssa.Value, d int) []*ssa.Const {
 		}
 	}
 	return out
+}
+
+// ---------------- C26.R7 (round 4 seed C26-G): /P is trusted only when /Perms confirms it ----------------
+
+// checkPermsBindsP: for revisions 5 and 6 the permission word /P is clear text; what binds it to the document is its
+// encrypted copy in /Perms. validatePermissions may therefore report success only as the result of the comparison of
+// the decrypted copy with /P (bytes.Equal) — or, for other revisions, behind the revision test. Same decision
+// procedure as C25.R1's validators (boolFromCompare), applied to this function under C26: a relaxed-mode "digest the
+// mismatch and go on" makes pdfcpu honour a /P that anybody with the user password has edited.
+func checkPermsBindsP(c *Ctx) {
+	p, r := c.P, c.R
+	const fid = "pkg/pdfcpu.validatePermissions"
+	fn := p.Func(fid)
+	if fn == nil {
+		r.Bad("C26.R7", fid, "anchor", "", "UNRESOLVED-ANCHOR")
+		return
+	}
+	n := 0
+	for _, ret := range returnsOf(fn) {
+		if len(ret.Results) == 0 {
+			continue
+		}
+		n++
+		construct := fmt.Sprintf("return#%d ok", n)
+		if why := boolFromCompare(ret.Results[0], ret, 0, map[ssa.Value]bool{}); why != "" {
+			r.Bad("C26.R7", fid, construct, posOrFn(p, ret, fn), "the permission word can be accepted without the comparison with its encrypted copy in /Perms deciding it ("+why+"): a clear-text /P edited by a holder of the user password is honoured, and operations the document denies proceed")
+		} else {
+			r.OK("C26.R7", fid, construct, posOrFn(p, ret, fn), "false, the result of the /Perms comparison, or true behind it / behind the revision test", true)
+		}
+	}
+	if n == 0 {
+		r.Bad("C26.R7", fid, "returns", p.Pos(fn.Pos()), "UNDECIDED")
+	}
 }
